@@ -798,6 +798,13 @@ func c45Exec(x *Ctx) {
 					}
 					x.Probe("request-cancelled-before-the-disconnect")
 				}
+				if hr.Pct(40) {
+					// a last Tversion before leaving: whatever it does to the fids, none is forgotten
+					if vr := peer.Call(&Msg{Type: Tversion, Tag: NOTAG, Msize: ms, Version: "9P2000"}); vr == nil || vr.M == nil || vr.M.Type != Rversion {
+						report("a0-no-reply", "a Tversion at the end of the history was not answered with Rversion")
+					}
+					x.Probe("tversion-before-the-disconnect")
+				}
 				sys.Conns[ci].Clnt.Close()
 			}
 		}
